@@ -241,8 +241,21 @@ RDCases == {
   [doc |-> "{\"\\u212a\":1,\"\\u017f\":[null]}", norm |-> "{\"\\u212a\":1,\"\\u017f\":[null]}"],
   [doc |-> "{\"properties\":{\"a\":{\"enu\\u1e9e\":[],\"con\\u017ft\":1}}}", norm |-> "{\"properties\":{\"a\":{\"enu\\u1e9e\":[],\"con\\u017ft\":1}}}"]}
 
+\* documents whose ACCEPTANCE the property leaves open (a subschema value Unmarshal may refuse: an integer keyword beyond
+\* the int range, a fraction, exponent spelling, an ill-typed value, a non-schema), under every subschema-bearing
+\* keyword.  What it does fix: IF Unmarshal accepts, Marshal reproduces the document (norm = doc, opt = accept or refuse)
+RDBadSubs == {"{\"type\":\"string\",\"maxLength\":4294967296}", "{\"pattern\":\"^a\",\"minLength\":1e2}", "{\"minLength\":1.5}",
+              "{\"type\":1}", "5", "{\"required\":\"a\"}", "{\"minimum\":\"1\",\"type\":\"number\"}"}
+RDWrapPre == {"{\"items\":", "{\"type\":\"array\",\"items\":", "{\"additionalProperties\":", "{\"not\":", "{\"contains\":", "{\"propertyNames\":",
+              "{\"if\":", "{\"unevaluatedItems\":", "{\"unevaluatedProperties\":", "{\"additionalItems\":", "{\"contentSchema\":",
+              "{\"then\":", "{\"else\":"}
+RDOptCases == {[doc |-> w \o b \o "}", norm |-> w \o b \o "}", opt |-> TRUE] : w \in RDWrapPre, b \in RDBadSubs}
+              \cup {[doc |-> "{\"properties\":{\"a\":" \o b \o "}}", norm |-> "{\"properties\":{\"a\":" \o b \o "}}", opt |-> TRUE] : b \in RDBadSubs}
+              \cup {[doc |-> "{\"allOf\":[" \o b \o "]}", norm |-> "{\"allOf\":[" \o b \o "]}", opt |-> TRUE] : b \in RDBadSubs}
+              \cup {[doc |-> "{\"items\":{\"items\":" \o b \o "}}", norm |-> "{\"items\":{\"items\":" \o b \o "}}", opt |-> TRUE] : b \in RDBadSubs}
+              \cup {[doc |-> "{\"$defs\":{\"x\":" \o b \o "}}", norm |-> "{\"$defs\":{\"x\":" \o b \o "}}", opt |-> TRUE] : b \in RDBadSubs}
 Cases == CASE Family = "PO" -> POCases
-           [] Family = "RD" -> RDCases
+           [] Family = "RD" -> RDCases \cup RDOptCases
            [] Family = "RT" -> {[s |-> v] : v \in {x \in RTValues(0) : RTOk(x)}}
            \* (the undecorated bases are replayed as well: "with and without the decoration" has two sides)
            [] Family = "DK" -> {c \in DKCases \cup DKChainCases : DKOk(c)}
